@@ -23,7 +23,7 @@ func TestMain(m *testing.M) { vkit.Main(m) }
 const tProg = "TestBrokerProgressAndShutdown"
 
 type Case struct {
-	Backend    string `json:"backend"` // channel | queue | deque | queue-bounded | lifo
+	Backend    string `json:"backend"` // channel | queue | deque | queue-bounded | lifo | queue-filtered
 	Capacity   int    `json:"capacity,omitempty"`
 	Parallel   bool   `json:"parallel_dispatch"`
 	Workers    int    `json:"worker_pool_size"`
@@ -43,7 +43,18 @@ type Case struct {
 }
 
 func (c *Case) lossless() bool {
-	return c.BufferSize == 0 && (c.Backend == "channel" || c.Backend == "queue" || c.Backend == "deque")
+	return c.BufferSize == 0 && (c.Backend == "channel" || c.Backend == "queue" || c.Backend == "deque" || c.Backend == "queue-filtered")
+}
+
+// passes is the output filter of the queue-filtered back-end; wanted counts
+// the messages among the first n published values (0..n-1) that pass it.
+func passes(v int) bool { return v%3 != 2 }
+
+func (c *Case) wanted(n int) int {
+	if c.Backend != "queue-filtered" {
+		return n
+	}
+	return n - n/3
 }
 
 func (c *Case) buffersBackend() bool { return c.Backend != "channel" }
@@ -63,6 +74,9 @@ func mkBroker(ctx context.Context, c *Case) *pubsub.Broker[int] {
 			panic(err)
 		}
 		return pubsub.NewQueueBroker[int](ctx, q, opts)
+	case "queue-filtered":
+		// a distributor that drops every third message on the way out
+		return pubsub.MakeDistributorBroker[int](ctx, pubsub.NewUnlimitedQueue[int]().Distributor().WithOutputFilter(passes), opts)
 	default:
 		return pubsub.NewLIFOBroker[int](ctx, opts, c.Capacity)
 	}
@@ -229,7 +243,7 @@ func runCase(c *Case) (string, string) {
 		}
 		// progress: everything accepted reaches the reading subscribers
 		if c.lossless() {
-			want := int64(published * c.Subs)
+			want := int64(c.wanted(published) * c.Subs)
 			if !vkit.Eventually(limit, func() bool { return received.Load() >= want }) {
 				return "stalled", fmt.Sprintf("%d of %d deliveries arrived %v after burst %d (size %d): the dispatcher stalls although every subscriber keeps receiving (backlog %d)", received.Load(), want, limit, bi, n, b.Stats(ctx).BufferDepth)
 			}
@@ -271,7 +285,7 @@ func runCase(c *Case) (string, string) {
 		if c.lossless() {
 			// the backlog of a buffering back-end may take a while to
 			// drain: only a standstill is a stall
-			want := int64(published * c.Subs)
+			want := int64(c.wanted(published) * c.Subs)
 			lastR, sinceR := int64(-1), time.Now()
 			for received.Load() < want {
 				if cur := received.Load(); cur != lastR {
@@ -322,7 +336,7 @@ func runCase(c *Case) (string, string) {
 
 func genCase(t *rapid.T) *Case {
 	c := &Case{
-		Backend:    rapid.SampledFrom([]string{"channel", "queue", "deque", "deque", "queue-bounded", "lifo"}).Draw(t, "backend"),
+		Backend:    rapid.SampledFrom([]string{"channel", "queue", "deque", "deque", "queue-bounded", "lifo", "queue-filtered"}).Draw(t, "backend"),
 		Capacity:   rapid.IntRange(1, 4).Draw(t, "capacity"),
 		Parallel:   rapid.Bool().Draw(t, "parallel"),
 		Workers:    rapid.IntRange(0, 3).Draw(t, "workers"),
